@@ -343,10 +343,17 @@ def harness(args, timeout=600, debug=False, stdin=None):
         if isinstance(out, bytes):
             out = out.decode("utf-8", "replace")
         return 124, None, out, "[timeout]"
+    js = None
     try:
         js = json.loads(out) if out.strip() else None
     except ValueError:
-        js = None
+        for line in reversed(out.split("\n")):
+            if line.startswith("{"):
+                try:
+                    js = json.loads(line)
+                    break
+                except ValueError:
+                    pass
     return rc, js, out, err
 
 
